@@ -325,14 +325,15 @@ def norm(x):
 
 
 def catalogue_case(args):
-    simname, layout, pattern = args
+    simname, layout, pattern = args[:3]
+    RLS = tuple(args[3]) if len(args) > 3 else (0, 1)
     import aurel
     root = tempfile.mkdtemp(prefix='c18_')
     bad = []
     try:
         rs = pattern
         truth = etgen.make_sim(root, simname, layout, restarts=rs, shape=(4, 3, 3), cuts=(2, 1, 1) if layout[0] == 'proc' else (1, 1, 1),
-                               ghost=1, rls=(0, 1), variables=('alp', 'betax', 'betay', 'betaz'))
+                               ghost=1, rls=RLS, variables=('alp', 'betax', 'betay', 'betaz'))
         p = etgen.param_for(root, simname)
         # what SimFactory leaves next to the restarts: the 'active' symlink of the restart being written, and stray entries
         last_r = max(r_[0] for r_ in rs)
@@ -356,7 +357,7 @@ def catalogue_case(args):
                 bad.append(f'restart {rnum}: variables {ent.get("var available")}')
             if norm(ent.get('its available')) != [min(its), max(its)]:
                 bad.append(f'restart {rnum}: its available {ent.get("its available")} for {its}')
-            for rl in (0, 1):
+            for rl in RLS:
                 got = norm(ent.get(f'rl = {rl}'))
                 strides = set(np.diff(its)) if len(its) > 1 else set()
                 if len(its) == 1:
@@ -394,7 +395,7 @@ def catalogue_case(args):
         # the summary denotes exactly the iterations on disk (uniform strides; the non-uniform case is the recorded finding)
         if all(len(set(np.diff(its))) <= 1 for _, its, _ in rs):
             alls = sorted({i for _, its, _ in rs for i in its})
-            for rl in (0, 1):
+            for rl in RLS:
                 ov = norm(full).get('overall', {}).get(f'rl = {rl}')
                 den = set()
                 for seg in ov or []:
@@ -406,7 +407,7 @@ def catalogue_case(args):
             root2 = tempfile.mkdtemp(prefix='c18b_')
             try:
                 etgen.make_sim(root2, simname, layout, restarts=rs[:-1], shape=(4, 3, 3), cuts=(2, 1, 1) if layout[0] == 'proc' else (1, 1, 1),
-                               ghost=1, rls=(0, 1), variables=('alp', 'betax', 'betay', 'betaz'))
+                               ghost=1, rls=RLS, variables=('alp', 'betax', 'betay', 'betaz'))
                 p2 = etgen.param_for(root2, simname)
                 # while the run is going on, the last restart is 'active' and must be skipped with skip_last=True
                 if len(rs) > 2:
@@ -418,7 +419,7 @@ def catalogue_case(args):
                     os.remove(os.path.join(root2, simname, f'output-{act:04d}-active'))
                 aurel.iterations(p2, skip_last=False, verbose=False)
                 etgen.make_sim(root2, simname, layout, restarts=rs[-1:], shape=(4, 3, 3), cuts=(2, 1, 1) if layout[0] == 'proc' else (1, 1, 1),
-                               ghost=1, rls=(0, 1), variables=('alp', 'betax', 'betay', 'betaz'))
+                               ghost=1, rls=RLS, variables=('alp', 'betax', 'betay', 'betaz'))
                 inc = aurel.iterations(p2, skip_last=True, verbose=False)       # last one still skipped
                 inc = aurel.iterations(p2, skip_last=False, verbose=False)
                 if {k: v for k, v in norm(inc).items() if k != 'overall'} != a:
@@ -548,6 +549,8 @@ def catalogue_cases(tier):
     many = [(r, [r * 40 + 8 * k for k in range(5)], r) for r in range(12)]
     gaps = [(0, [0, 4, 8], 0), (2, [12, 16], 1), (10, [20, 24, 28], 2), (11, [32, 36], 3), (101, [40, 44], 4)]
     cases += [('sim', layouts[1], many), ('restart_run', layouts[2], gaps), ('sim', layouts[0], gaps)]
+    # many refinement levels (two-digit level numbers)
+    cases += [('sim', layouts[1], patterns[1], tuple(range(12))), ('my-run.v2', layouts[0], patterns[4], (0, 1, 2, 10, 11))]
     if tier != 'quick':
         for nm, lay, pat in itertools.product(names[:3], layouts, patterns):
             cases.append((nm, lay, pat))
